@@ -188,6 +188,7 @@ def run_property(P, tier, seed, scratch, args, t0):
 
     # ---- decide kani results -----------------------------------------------------------
     ob_proof = ob_proof_ok = ob_bounded = ob_bounded_ok = 0
+    reached_fns = set()      # (unit, function) with >= 1 reachable CBMC check located in extracted text
     samples = []
     per_harness = []
     for job, res, out in results:
@@ -197,6 +198,10 @@ def run_property(P, tier, seed, scratch, args, t0):
         labelled = [c for c in checks if kani_run.LABEL_RE.match(c["desc"])]
         safety = [c for c in checks if not kani_run.LABEL_RE.match(c["desc"]) and in_extracted(c, ub, ufile)]
         covers = [c for c in checks if c["status"] in ("SATISFIED", "UNSATISFIABLE")]
+        if not expect_fail:
+            for c in safety:
+                if c["status"] not in ("UNREACHABLE",) and c.get("func"):
+                    reached_fns.add((uname, c["func"]))
         ph = {k: res.get(k) for k in ("unit", "harness", "variant", "outcome", "strength", "clause", "bound",
                                       "wall_s", "solver_s", "peak_rss_mb", "reason", "stubs")}
         ph["contract_assertions"] = len(labelled)
@@ -357,12 +362,34 @@ def run_property(P, tier, seed, scratch, args, t0):
     if not violations and not undecided and total_checked == 0:
         undecided.append((P, "vacuous: zero obligations generated"))
 
-    level = "proof" if ob_proof > 0 else "other"
+    # Level rule (stated in the evidence): "proof" only when proof-strength obligations are the
+    # majority of what decided the property in this run; a property decided mostly by bounded
+    # harnesses is reported as "other" even if some of its obligations are proofs.
+    level = "proof" if ob_proof > 0 and ob_proof > ob_bounded else "other"
     trusted = trusted_base(P, per_harness, unit_info)
     fuc = []
     for uname, (ub, ufile) in unit_info.items():
         for fr in ub.fragments:
             fuc.append({"unit": uname, "what": fr["what"], "origin": fr["origin"], "kind": fr["kind"], "sha256_16": fr["sha256"]})
+    code_kinds = {}
+    for f in fuc:
+        code_kinds[f["kind"]] = code_kinds.get(f["kind"], 0) + 1
+    n_code_units = sum(1 for f in fuc if f["kind"] in ("method", "match-arm", "stmt-slice", "nested-item")
+                       or (f["kind"] == "item" and f["what"].split("/")[-1].startswith("fn:")))
+    # whole-file fragments: count the `fn` items of the extracted file (measured with the tokenizer)
+    import rusttok
+    for f in fuc:
+        if f["kind"] == "whole-file":
+            rel = f["origin"].rsplit(":", 1)[0]
+            try:
+                toks = [t for t in rusttok.tokenize(open(os.path.join(REPO, rel), encoding="utf-8").read())
+                        if t.kind not in (rusttok.WS, rusttok.COMMENT)]
+                k = sum(1 for i in range(len(toks) - 1) if toks[i].kind == rusttok.IDENT and toks[i].text == "fn"
+                        and toks[i + 1].kind == rusttok.IDENT)
+            except OSError:
+                k = 0
+            f["fn_items_in_file"] = k
+            n_code_units += k
     bounded_list = [{"harness": p["harness"], "unit": p["unit"], "bound": p["bound"], "clause": p["clause"], "outcome": p["outcome"]}
                     for p in per_harness if p["strength"] != "proof" and p["variant"] == "full"]
     cov = {
@@ -370,11 +397,19 @@ def run_property(P, tier, seed, scratch, args, t0):
         "checker_cmd": "./check %s --tier %s  (kani <unit>.rs --harness <h> per harness; verus <lemma>.rs; vx/frame.py)" % (P, tier),
         "trusted_base": trusted,
         "samples": samples[:16] if samples else [{"note": "no obligation discharged in this run"}],
-        "explanation": ("Obligations counted in `obligations/discharged` come only from proof-strength harnesses "
+        "explanation": ("LEVEL RULE: level is `proof` only if proof-strength obligations outnumber bounded ones in this run "
+                        "(here %d proof vs %d bounded), otherwise `other`. " % (ob_proof, ob_bounded) +
+                        "Obligations counted in `obligations/discharged` come only from proof-strength harnesses "
                         "(loop-free or complete unwinding over the full stated machine domain), Verus lemmas and frame "
                         "obligations. Bounded harnesses are listed under `bounded` with their bound and are NOT counted as proved."),
         "bounded_obligations": ob_bounded, "bounded_discharged": ob_bounded_ok, "bounded": bounded_list,
         "functions_under_contract": fuc,
+        "code_units_under_contract": n_code_units,
+        "extracted_functions_reached_by_harnesses": len(reached_fns),
+        "extracted_functions_reached_list": sorted("%s: %s" % x for x in reached_fns)[:80],
+        "reached_note": "distinct functions of the extracted text in which CBMC located at least one REACHABLE check in a non-canary harness of this run (measured; functions whose bodies generate no implicit check are not counted, so this undercounts)",
+        "fragment_kinds": code_kinds,
+        "code_units_note": "code_units_under_contract = functions + methods + match arms + statement slices extracted individually, plus the number of `fn` items inside each whole-file fragment (incl. test fns of a dropped tests module if the drop was by cfg only); type items are not counted. It is the size of the extracted text, not the number of functions a harness actually calls.",
         "harnesses": per_harness,
         "lemmas": lemma_res, "frame": [{k: v for k, v in r.items() if k != "samples"} for r in frame_res],
         "backends": {"kani": "0.68.0 (cbmc 6.11.0, cadical)", "verus": "0.2026.09.13 (z3)", "frame": "vx/frame.py"},
